@@ -589,6 +589,19 @@ fn c01(args: &Args) -> ! {
             }
         }
     }
+    // single contents above the 4 MiB cluster size: compressible (the decoded cluster is above
+    // 4 MiB) and incompressible (the stored cluster is above 4 MiB), read back from the file
+    for comp in [Comp::Lz4(3), Comp::Zstd(5)] {
+        for (len, entropy) in [(MIB4 + 1, Entropy::Low), (6 * 1024 * 1024 + 123, Entropy::Low), (6 * 1024 * 1024 + 123, Entropy::High)] {
+            let small = Item { len: 3000, entropy: Entropy::Low, hint: Hint::Yes, src: Src::Memory, tag: 51 };
+            let big = Item { len, entropy, hint: Hint::Yes, src: Src::Memory, tag: 52 };
+            scs.push(Scenario { comp, cached: false, packaging: Packaging::Bare, pre: Pre::none(), items: vec![small.clone(), big, small] });
+        }
+    }
+    {
+        // one content of 128 MiB in a compressed cluster
+        scs.push(Scenario { comp: Comp::Zstd(5), cached: false, packaging: Packaging::Bare, pre: Pre::none(), items: vec![Item { len: 1 << 27, entropy: Entropy::Low, hint: Hint::Yes, src: Src::Memory, tag: 53 }] });
+    }
     // stored size around the plain size (read back through the reader): 400 incompressible bytes +
     // a run of 0..48 bytes, hint Yes
     for comp in [Comp::Lz4(3), Comp::Lzma(1), Comp::Zstd(5)] {
